@@ -210,6 +210,9 @@ struct Extractor : public RecursiveASTVisitor<Extractor> {
       if (auto *VD = dyn_cast<VarDecl>(D)) {
         if (VD->isLocalVarDecl() && !VD->isStaticLocal())
           return json::Array{"var", varId(VD), VD->getNameAsString()};
+        if (VD->getTLSKind() != VarDecl::TLS_None)
+          return json::Array{"gvar", VD->getQualifiedNameAsString(),
+                             VD->isStaticLocal() ? "staticlocal" : "global", "tls"};
         return json::Array{"gvar", VD->getQualifiedNameAsString(),
                            VD->isStaticLocal() ? "staticlocal" : "global"};
       }
@@ -543,6 +546,7 @@ struct Extractor : public RecursiveASTVisitor<Extractor> {
           O["name"] = VD->getNameAsString();
           O["type"] = typeStr(VD->getType());
           if (VD->isStaticLocal()) O["static"] = true;
+          if (VD->getTLSKind() != VarDecl::TLS_None) O["tls"] = true;
           if (VD->getInit()) O["init"] = ser(VD->getInit(), 1);
           Ev.push_back(std::move(O));
         }
